@@ -161,6 +161,14 @@ def _mp(p):
     return p.assign(m=p.a * 3)
 
 
+def _mp_info(p, partition_info=None):
+    return p.assign(num=partition_info["number"] if partition_info is not None else -1)
+
+
+def _ix_plus1(ix):
+    return ix + 1
+
+
 def _mp2(p, s):
     return p.assign(m=p.a + s)
 
@@ -189,6 +197,14 @@ CHAINS = {
     "shuffle_add1": (lambda x: x.shuffle("b", shuffle_method="tasks") + 1, True, False),
     "bjoin": (lambda x: x.merge(_small_coll(), on="b", broadcast=True, shuffle_method="tasks"), True, False),
     "bjoin_left": (lambda x: x.merge(_small_coll(), on="b", how="left", broadcast=True, shuffle_method="tasks"), True, False),
+    # operations whose tasks depend on the partition NUMBER (D105): random state per partition, partition_info
+    "sample_half": (lambda x: x.sample(frac=0.5, random_state=7), False, False),
+    "mappart_info": (lambda x: x.map_partitions(_mp_info, meta=x._meta.assign(num=0)), False, False),
+    "split_first": (lambda x: x.random_split([0.5, 0.5], random_state=3)[0], False, False),
+    # an index-like collection that is not elementwise (D106)
+    "index_mappart": (lambda x: x.index.map_partitions(_ix_plus1), False, False),
+    # a lowered shuffle: selections are pushed INTO the shuffle node (D108)
+    "shuffle_tasks_lowered": (lambda x: x.shuffle("b", shuffle_method="tasks").optimize(), True, False),
     # operations whose partition i needs rows of neighbouring / all earlier partitions (D82)
     "shift1": (lambda x: x.shift(1), False, False),
     "shift_m1": (lambda x: x.shift(-1), False, False),
@@ -230,10 +246,23 @@ def reference(source, chain):
     return _REF_CACHE[key]
 
 
+def _head(obj, n):
+    return obj[:n] if isinstance(obj, pd.Index) else obj.head(n)
+
+
+def _tail(obj, n):
+    return (obj[-n:] if n else obj[:0]) if isinstance(obj, pd.Index) else obj.tail(n)
+
+
 def _cat(parts, like):
     parts = [p for p in parts]
     if not parts:
-        return like.iloc[:0]
+        return like[:0] if isinstance(like, pd.Index) else like.iloc[:0]
+    if isinstance(parts[0], pd.Index):
+        out = parts[0]
+        for p in parts[1:]:
+            out = out.append(p)
+        return out
     return pd.concat(parts)
 
 
@@ -349,25 +378,25 @@ def run_case(case):
         if k > np_:
             if r[0] == "err" and r[1] in ("ValueError", "IndexError"):
                 return None  # refused (Head._lower: ValueError; Head._divisions may raise IndexError first)
-            if sorted_sem and r[0] == "ok" and _same(r[1], _cat(full, like).head(n), False):
+            if sorted_sem and r[0] == "ok" and _same(r[1], _head(_cat(full, like), n), False):
                 return None  # Head(sort) -> NFirst never looks at npartitions: the global answer, no error
             return ("no-error", f"head(npartitions={k}) on {np_} partitions did not raise ValueError: {r[:2]}")
         if r[0] == "err":
             return (f"raised:{r[1]}", f"head({n}, npartitions={k}) raised {r[1]}: {r[2]}")
         got = r[1]
         lead = _cat(full[: (len(full) if k == -1 else k)], like)
-        want = lead.head(n)
+        want = _head(lead, n)
         if not unordered and not sorted_sem and not _same(got, want, False) and _has_fused_io(x):
             # FusedIO (tune stage) coarsens the partitions of a column-projected multi-file read: the k leading
             # partitions of the optimised plan are a union of leading logical partitions.  Accepted: a prefix of
             # the whole collection that contains the literal answer.
-            glob = _cat(full, like).head(len(got))
+            glob = _head(_cat(full, like), len(got))
             if len(got) >= len(want) and len(got) <= n and _same(got, glob, False):
                 return None
         if sorted_sem:
             # Head(sort) is answered by NFirst: the global first n rows (a superset of the literal answer
             # when the leading partitions hold fewer than n rows)
-            glob = _cat(full, like).head(n)
+            glob = _head(_cat(full, like), n)
             if _same(got, want, False) or (len(want) < n and _same(got, glob, False)):
                 return None
             return ("rows", f"head({n}, npartitions={k}) of a sorted frame\ngot:\n{e2e.describe(got)}\nwant:\n{e2e.describe(want)}")
@@ -390,13 +419,13 @@ def run_case(case):
         if r[0] == "err":
             return (f"raised:{r[1]}", f"tail({n}) raised {r[1]}: {r[2]}")
         got = r[1]
-        want = full[-1].tail(n)
+        want = _tail(full[-1], n)
         if not unordered and not sorted_sem and not _same(got, want, False) and _has_fused_io(x):
-            glob = _cat(full, like).tail(len(got))  # see head: the last fused partition is a union of trailing partitions
+            glob = _tail(_cat(full, like), len(got))  # see head: the last fused partition is a union of trailing partitions
             if len(got) >= len(want) and len(got) <= n and _same(got, glob, False):
                 return None
         if sorted_sem:
-            glob = _cat(full, like).tail(n)
+            glob = _tail(_cat(full, like), n)
             if _same(got, want, False) or (len(want) < n and _same(got, glob, False)):
                 return None
             return ("rows", f"tail({n}) of a sorted frame\ngot:\n{e2e.describe(got)}\nwant:\n{e2e.describe(want)}")
@@ -420,11 +449,37 @@ def run_case(case):
             return ("no-error", f"head(npartitions={k1}) on {np_} partitions did not raise: {r[:2]}")
         if r[0] == "err":
             return (f"raised:{r[1]}", f"head({n1},{k1}).head({n2}) raised {r[1]}: {r[2]}")
-        want = _cat(full[: (len(full) if k1 == -1 else k1)], like).head(n1).head(n2)
+        want = _head(_head(_cat(full[: (len(full) if k1 == -1 else k1)], like), n1), n2)
         if unordered or sorted_sem:
             return None if len(r[1]) == len(want) or sorted_sem else ("rows", f"nested head: {len(r[1])} rows, expected {len(want)}")
         if not _same(r[1], want, False):
             return ("rows", f"head({n1}, npartitions={k1}).head({n2})\ngot:\n{e2e.describe(r[1])}\nwant:\n{e2e.describe(want)}")
+        return None
+    if kind in ("parts_head", "parts_tail"):
+        # a head / tail ABOVE a partition selection: positions refer to the selected collection
+        P = sel["P"]
+        sub = [full[p] for p in P]
+        if kind == "parts_head":
+            n, k = sel["n"], sel["k"]
+            if k > len(P):
+                return None
+            r = e2e.run_or_err(lambda: x.partitions[P].head(n, npartitions=k))
+            want = _head(_cat(sub[: (len(sub) if k == -1 else k)], like), n)
+            what = f"partitions{P}.head({n}, npartitions={k})"
+        else:
+            n = sel["n"]
+            r = e2e.run_or_err(lambda: x.partitions[P].tail(n))
+            want = _tail(sub[-1], n)
+            what = f"partitions{P}.tail({n})"
+        if r[0] == "err":
+            return (f"raised:{r[1]}", f"{what} raised {r[1]}: {r[2]}")
+        got = r[1]
+        if sorted_sem or _has_fused_io(x.partitions[P]):
+            return None  # NFirst/NLast and fused readers answer with a superset prefix (see `head`)
+        if unordered:
+            return None if len(got) == len(want) else ("rows", f"{what}: {len(got)} rows, expected {len(want)}")
+        if not _same(got, want, False):
+            return ("rows", f"{what}\ngot:\n{e2e.describe(got)}\nwant:\n{e2e.describe(want)}")
         return None
     raise KeyError(kind)
 
@@ -458,6 +513,13 @@ def selections(np_, quick, rng):
             sels.append({"kind": "head", "n": n, "k": k})
     for n in (2, 50):
         sels.append({"kind": "tail", "n": n})
+    if np_ > 2:
+        sels.append({"kind": "parts_head", "P": allp[1:], "n": 3, "k": 1})
+        sels.append({"kind": "parts_head", "P": [1, 0], "n": 3, "k": 1})
+        sels.append({"kind": "parts_head", "P": [np_ - 1, 0, 1], "n": 50, "k": 2})
+        sels.append({"kind": "parts_head", "P": [np_ - 1], "n": 2, "k": 1})
+        sels.append({"kind": "parts_tail", "P": allp[:-1], "n": 2})
+        sels.append({"kind": "parts_tail", "P": [1, 0], "n": 2})
     sels.append({"kind": "nested_head", "n1": 7, "k1": 2, "n2": 6})
     sels.append({"kind": "nested_head", "n1": 3, "k1": -1, "n2": 9})
     return sels
@@ -469,6 +531,8 @@ _MECHANISM = {"id": None, "assign_series": "elemwise-series-operand", "mul_axis0
               "mappart_bcast": "broadcast-operand", "add1_filter_proj": "elemwise", "repart3": "repartition", "repart7": "repartition",
               "shuffle_tasks": "shuffle", "shuffle_tasks_mb2": "shuffle", "shuffle_tasks_up_mb2": "shuffle", "shuffle_disk": "shuffle", "shuffle_add1": "shuffle",
               "bjoin": "broadcast-join", "bjoin_left": "broadcast-join", "sort_a": "sort", "sort_a_desc": "sort", "set_index_a": "set_index",
+              "sample_half": "partition-number", "mappart_info": "partition-number", "split_first": "partition-number",
+              "index_mappart": "index-mappart", "shuffle_tasks_lowered": "shuffle",
               "shift1": "overlap", "shift_m1": "overlap", "diff1": "overlap", "rolling2": "overlap", "cumsum": "cumulative"}
 
 
@@ -502,7 +566,7 @@ def _signature(case, what):
 
 # chains that are cheap and cover every selection mechanism: run on every source; the others on a subset
 _CORE_CHAINS = ["id", "add1", "filter", "col_a", "bcast_assign", "bcast_series", "mappart_bcast", "assign_series", "mul_axis0"]
-_LEN_CHAINS = ("id", "add1", "col_a", "assign_series", "bcast_assign", "bcast_series")
+_LEN_CHAINS = ("id", "add1", "col_a", "assign_series", "bcast_assign", "bcast_series", "shuffle_tasks_lowered")
 _HEAVY_CHAINS = [c for c in CHAINS if c not in _CORE_CHAINS]
 _HEAVY_SOURCES = ["from_pandas", "from_map", "from_array", "read_parquet_div"]
 _EXTRA_SOURCES = ["from_pandas_dense7", "from_pandas_12"]  # only used by MUST_RUN / replay
@@ -559,6 +623,21 @@ MUST_RUN = [
     {"source": "read_parquet_div", "chain": "shift1", "sel": {"kind": "to_delayed_sel", "P": [1, 2, 3, 4, 5]}},
     {"source": "read_parquet_div", "chain": "cumsum", "sel": {"kind": "partitions", "P": [0, 0]}},
     {"source": "read_parquet", "chain": "col_a", "sel": {"kind": "head", "n": 2, "k": 6}},
+    {"source": "from_pandas", "chain": "sample_half", "sel": {"kind": "partitions", "P": [2]}},            # D105
+    {"source": "from_pandas", "chain": "sample_half", "sel": {"kind": "tail", "n": 2}},
+    {"source": "from_pandas", "chain": "mappart_info", "sel": {"kind": "partitions", "P": [3, 1]}},
+    {"source": "from_pandas", "chain": "mappart_info", "sel": {"kind": "tail", "n": 2}},
+    {"source": "from_pandas", "chain": "split_first", "sel": {"kind": "get_partition", "P": [2]}},
+    {"source": "from_pandas", "chain": "index_mappart", "sel": {"kind": "head", "n": 7, "k": 2}},          # D106
+    {"source": "from_pandas", "chain": "index_mappart", "sel": {"kind": "head", "n": 50, "k": -1}},
+    {"source": "from_pandas", "chain": "shuffle_tasks_lowered", "sel": {"kind": "len_sel", "P": [1, 2]}},  # D108
+    {"source": "from_pandas", "chain": "shuffle_tasks_lowered", "sel": {"kind": "len_sel", "P": [0, 0]}},
+    # head / tail above a partition selection that reached the source (positions refer to the selected collection)
+    {"source": "from_pandas", "chain": "id", "sel": {"kind": "parts_head", "P": [2, 3, 4], "n": 3, "k": 1}},
+    {"source": "from_pandas", "chain": "add1", "sel": {"kind": "parts_head", "P": [1, 0], "n": 3, "k": 1}},
+    {"source": "from_array", "chain": "id", "sel": {"kind": "parts_head", "P": [2, 0, 1], "n": 50, "k": 2}},
+    {"source": "from_map", "chain": "col_a", "sel": {"kind": "parts_head", "P": [2], "n": 2, "k": 1}},
+    {"source": "from_pandas", "chain": "id", "sel": {"kind": "parts_tail", "P": [1, 0], "n": 2}},
     # staged task shuffle that increases the partition count, selection that is not a prefix
     {"source": "from_pandas", "chain": "shuffle_tasks_up_mb2", "sel": {"kind": "partitions", "P": [2, 3, 4, 5, 6]}},
     {"source": "from_pandas", "chain": "shuffle_tasks_up_mb2", "sel": {"kind": "partitions", "P": [7, 0, 3, 1]}},
